@@ -360,6 +360,302 @@ theorem pRemove_exact (s : Store) (pfx : Option Bytes) (k : Bytes) (hk : IsBytes
 theorem remove_after_close_witness :
     (pRemove false [([1, 2, 9], [7]), ([3, 4, 9], [8])] none).1 = [] := by decide
 
+/-! ### `BatchRemove`: rounds of at most `n` deletions until a round finds nothing -/
+
+/-- the keys of a store are pairwise distinct (a map) -/
+def Distinct (s : Store) : Prop := s.Pairwise (fun a b => a.1 ≠ b.1)
+
+def cnt (s : Store) (r : Range) : Nat := (s.filter (fun e => inRange r e.1)).length
+
+theorem ltB_of_leB_ne (a b : Bytes) (h : leB a b = true) (hne : a ≠ b) : ltB a b = true := by
+  unfold leB at h
+  rcases ltB_total a b with h1 | h1 | h1
+  · exact h1
+  · exact absurd h1 hne
+  · rw [h1] at h; cases h
+
+theorem leB_of_ltB (a b : Bytes) (h : ltB a b = true) : leB a b = true := by
+  unfold leB
+  cases hh : ltB b a with
+  | false => rfl
+  | true => have := ltB_trans a b a h hh; rw [ltB_irrefl] at this; cases this
+
+/-- the keys visited by an iteration, in order -/
+def keysOf (s : Store) (r : Range) : List Bytes := (iter s r).map (·.1)
+
+theorem mem_keysOf (s : Store) (r : Range) (k : Bytes) :
+    k ∈ keysOf s r ↔ (∃ v, (k, v) ∈ s) ∧ inRange r k = true := by
+  unfold keysOf
+  simp only [List.mem_map, mem_iter]
+  constructor
+  · rintro ⟨e, ⟨he, hr⟩, rfl⟩; exact ⟨⟨e.2, he⟩, hr⟩
+  · rintro ⟨⟨v, hv⟩, hr⟩; exact ⟨(k, v), ⟨hv, hr⟩, rfl⟩
+
+theorem keysOf_perm (s : Store) (r : Range) :
+    (keysOf s r).Perm ((s.filter (fun e => inRange r e.1)).map (·.1)) := by
+  unfold keysOf iter
+  exact (sortBy_perm _ _).map _
+
+theorem keysOf_sorted (s : Store) (r : Range) (hd : Distinct s) :
+    (keysOf s r).Pairwise (fun a b => ltB a b = true) := by
+  unfold keysOf
+  rw [List.pairwise_map]
+  have h1 : (iter s r).Pairwise (fun a b => leB a.1 b.1 = true) := by
+    unfold iter
+    exact sortBy_pairwise (fun (a b : Bytes × Bytes) => leB a.1 b.1) (fun a b => leB_total a.1 b.1)
+      (fun a b c => leB_trans a.1 b.1 c.1) _
+  have h2 : (iter s r).Pairwise (fun a b => a.1 ≠ b.1) := by
+    unfold iter
+    have : (s.filter (fun e => inRange r e.1)).Pairwise (fun a b => a.1 ≠ b.1) := List.Pairwise.filter _ hd
+    exact (sortBy_perm _ _).symm.pairwise this (fun {a b} h => Ne.symm h)
+  exact (h1.and h2).imp (fun {a b} h => ltB_of_leB_ne a.1 b.1 h.1 h.2)
+
+theorem keysOf_nodup (s : Store) (r : Range) (hd : Distinct s) : (keysOf s r).Nodup := by
+  exact (keysOf_sorted s r hd).imp (fun {a b} h e => by subst e; rw [ltB_irrefl] at h; cases h)
+
+theorem sorted_drop (l : List Bytes) (hl : l.Pairwise (fun a b => ltB a b = true)) (n : Nat) (k : Bytes)
+    (hk : k ∈ l.drop n) : ∃ kn, l[n]? = some kn ∧ leB kn k = true := by
+  have hn : n < l.length := by
+    apply Nat.lt_of_not_ge
+    intro hh
+    rw [List.drop_eq_nil_iff.mpr hh] at hk
+    cases hk
+  refine ⟨l[n], List.getElem?_eq_getElem hn, ?_⟩
+  have hp : (l.drop n).Pairwise (fun a b => ltB a b = true) := hl.sublist (List.drop_sublist n l)
+  rw [List.drop_eq_getElem_cons hn] at hp hk
+  rcases List.mem_cons.mp hk with rfl | hk'
+  · exact leB_refl _
+  · exact leB_of_ltB _ _ ((List.pairwise_cons.mp hp).1 k hk')
+
+theorem filter_mem_left {α : Type} (p : α → Bool) (a b : List α) (hp : ∀ x, p x = true ↔ x ∈ a)
+    (h : (a ++ b).Nodup) : (a ++ b).filter p = a := by
+  rw [List.filter_append]
+  have hd := List.nodup_append.mp h
+  have h1 : a.filter p = a := by
+    apply List.filter_eq_self.mpr; intro x hx; exact (hp x).mpr hx
+  have h2 : b.filter p = [] := by
+    apply List.filter_eq_nil_iff.mpr
+    intro x hx hpx
+    exact hd.2.2 x ((hp x).mp hpx) x hx rfl
+  rw [h1, h2, List.append_nil]
+
+theorem filter_mem_take {α : Type} (p : α → Bool) (l : List α) (n : Nat) (hp : ∀ x, p x = true ↔ x ∈ l.take n)
+    (h : l.Nodup) : (l.filter p).length = (l.take n).length := by
+  have := filter_mem_left p (l.take n) (l.drop n) hp (by rw [List.take_append_drop]; exact h)
+  rw [List.take_append_drop] at this
+  rw [this]
+
+
+/-- the range the next round of `BatchRemove` iterates -/
+def nextStart (ks : List Bytes) (start : Option Bytes) (n : Nat) : Option Bytes :=
+  match ks[n]? with | some k => some k | none => start
+
+theorem inRange_of_ge (start limit : Option Bytes) (kn k : Bytes)
+    (h1 : inRange ⟨start, limit⟩ kn = true) (h2 : inRange ⟨some kn, limit⟩ k = true) :
+    inRange ⟨start, limit⟩ k = true := by
+  cases start with
+  | none => simp only [inRange, Bool.and_eq_true] at *; exact ⟨trivial, h2.2⟩
+  | some st =>
+    simp only [inRange, Bool.and_eq_true] at *
+    exact ⟨leB_trans st kn k h1.1 h2.1, h2.2⟩
+
+theorem length_filter_split {α : Type} (p : α → Bool) (l : List α) :
+    l.length = (l.filter p).length + (l.filter (fun a => !p a)).length := by
+  induction l with
+  | nil => rfl
+  | cons x xs ih =>
+    cases hp : p x <;> simp [hp] <;> omega
+
+/-- for a key of the store that the round did not delete, being in the old range and being in the
+    next round's range are the same thing -/
+theorem round_range (s : Store) (start limit : Option Bytes) (n : Nat) (hd : Distinct s)
+    (k : Bytes) (hk : ∃ v, (k, v) ∈ s) (hnd : k ∉ (keysOf s ⟨start, limit⟩).take n) :
+    inRange ⟨nextStart (keysOf s ⟨start, limit⟩) start n, limit⟩ k = inRange ⟨start, limit⟩ k := by
+  have hs := keysOf_sorted s ⟨start, limit⟩ hd
+  unfold nextStart
+  cases hkn : (keysOf s ⟨start, limit⟩)[n]? with
+  | none => rfl
+  | some kn =>
+    simp only
+    have hknm : kn ∈ keysOf s ⟨start, limit⟩ := List.mem_of_getElem? hkn
+    have hknr := ((mem_keysOf s _ kn).mp hknm).2
+    cases hr : inRange ⟨start, limit⟩ k with
+    | true =>
+      have hkm : k ∈ keysOf s ⟨start, limit⟩ := (mem_keysOf s _ k).mpr ⟨hk, hr⟩
+      have : k ∈ (keysOf s ⟨start, limit⟩).drop n := by
+        rw [← List.take_append_drop n (keysOf s ⟨start, limit⟩)] at hkm
+        rcases List.mem_append.mp hkm with h | h
+        · exact absurd h hnd
+        · exact h
+      obtain ⟨kn', h1, h2⟩ := sorted_drop _ hs n k this
+      rw [hkn] at h1; cases h1
+      unfold inRange at hr ⊢
+      simp only [Bool.and_eq_true] at hr ⊢
+      exact ⟨h2, hr.2⟩
+    | false =>
+      cases hr' : inRange ⟨some kn, limit⟩ k with
+      | false => rfl
+      | true =>
+        rw [inRange_of_ge start limit kn k hknr hr'] at hr
+        cases hr
+
+theorem take_sub_range (s : Store) (r : Range) (n : Nat) (k : Bytes)
+    (h : k ∈ (keysOf s r).take n) : inRange r k = true :=
+  ((mem_keysOf s r k).mp (List.mem_of_mem_take h)).2
+
+/-- what one round leaves outside the next range is what lies outside the old range -/
+theorem round_outside (s : Store) (start limit : Option Bytes) (n : Nat) (hd : Distinct s) :
+    ((batchRound s start limit n).1).filter (fun e => !inRange ⟨(batchRound s start limit n).2.1, limit⟩ e.1) =
+      s.filter (fun e => !inRange ⟨start, limit⟩ e.1) := by
+  unfold batchRound
+  simp only [List.filter_filter]
+  apply List.filter_congr
+  intro e he
+  have hk : ∃ v, (e.1, v) ∈ s := ⟨e.2, he⟩
+  change (!inRange ⟨nextStart (keysOf s ⟨start, limit⟩) start n, limit⟩ e.1 &&
+      !((keysOf s ⟨start, limit⟩).take n).contains e.1) = !inRange ⟨start, limit⟩ e.1
+  by_cases hm : e.1 ∈ (keysOf s ⟨start, limit⟩).take n
+  · have := take_sub_range s _ n e.1 hm
+    rw [this]
+    simp [hm]
+  · rw [round_range s start limit n hd e.1 hk hm]
+    simp [hm]
+
+/-- the count: one round deletes `del.length` keys of the range and leaves the others in the next range -/
+theorem round_count (s : Store) (start limit : Option Bytes) (n : Nat) (hd : Distinct s) :
+    cnt s ⟨start, limit⟩ = (batchRound s start limit n).2.2 +
+      cnt (batchRound s start limit n).1 ⟨(batchRound s start limit n).2.1, limit⟩ := by
+  unfold cnt
+  rw [length_filter_split (fun e => ((keysOf s ⟨start, limit⟩).take n).contains e.1) (s.filter _)]
+  congr 1
+  · -- the deleted ones
+    have hp := keysOf_perm s ⟨start, limit⟩
+    have hn := keysOf_nodup s ⟨start, limit⟩ hd
+    have h1 : ((s.filter (fun e => inRange ⟨start, limit⟩ e.1)).filter
+        (fun e => ((keysOf s ⟨start, limit⟩).take n).contains e.1)).length =
+        (((s.filter (fun e => inRange ⟨start, limit⟩ e.1)).map (·.1)).filter
+          (fun k => decide (k ∈ (keysOf s ⟨start, limit⟩).take n))).length := by
+      rw [List.filter_map, List.length_map]
+      congr 1
+      apply List.filter_congr
+      intro e _
+      simp
+    rw [h1, ← (hp.filter _).length_eq]
+    exact filter_mem_take _ _ n (fun x => by simp) hn
+  · unfold batchRound
+    simp only [List.filter_filter]
+    congr 1
+    apply List.filter_congr
+    intro e he
+    have hk : ∃ v, (e.1, v) ∈ s := ⟨e.2, he⟩
+    change (!((keysOf s ⟨start, limit⟩).take n).contains e.1 && inRange ⟨start, limit⟩ e.1) =
+      (inRange ⟨nextStart (keysOf s ⟨start, limit⟩) start n, limit⟩ e.1 &&
+        !((keysOf s ⟨start, limit⟩).take n).contains e.1)
+    by_cases hm : e.1 ∈ (keysOf s ⟨start, limit⟩).take n
+    · simp [hm]
+    · rw [round_range s start limit n hd e.1 hk hm]
+      simp [hm, Bool.and_comm]
+
+theorem round_distinct (s : Store) (start limit : Option Bytes) (n : Nat) (hd : Distinct s) :
+    Distinct (batchRound s start limit n).1 := by
+  unfold batchRound Distinct
+  exact List.Pairwise.filter _ hd
+
+/-- **batch_remove_exact.**  With a positive batch size, `BatchRemove` over `[start, limit)` leaves exactly
+the keys outside the range (with their values) and reports the number of keys that were in it — however
+many rounds that takes (enough fuel: one round more than there are keys in the range). -/
+theorem batch_remove_exact (limit : Option Bytes) (n : Nat) (hn : 0 < n) :
+    ∀ (fuel : Nat) (s : Store) (start : Option Bytes), Distinct s → cnt s ⟨start, limit⟩ < fuel →
+      batchRemove fuel s start limit n =
+        (s.filter (fun e => !inRange ⟨start, limit⟩ e.1), cnt s ⟨start, limit⟩) := by
+  intro fuel
+  induction fuel with
+  | zero => intro s start _ h; omega
+  | succ fuel ih =>
+    intro s start hd hc
+    unfold batchRemove
+    simp only
+    have hcount := round_count s start limit n hd
+    by_cases h0 : (batchRound s start limit n).2.2 = 0
+    · simp only [h0, if_true]
+      -- nothing in the range
+      have hk0 : keysOf s ⟨start, limit⟩ = [] := by
+        have : ((keysOf s ⟨start, limit⟩).take n).length = 0 := h0
+        rw [List.length_take] at this
+        have : (keysOf s ⟨start, limit⟩).length = 0 := by omega
+        exact List.eq_nil_of_length_eq_zero this
+      have hnone : ∀ e ∈ s, inRange ⟨start, limit⟩ e.1 = false := by
+        intro e he
+        cases hr : inRange ⟨start, limit⟩ e.1 with
+        | false => rfl
+        | true =>
+          have : e.1 ∈ keysOf s ⟨start, limit⟩ := (mem_keysOf s _ e.1).mpr ⟨⟨e.2, he⟩, hr⟩
+          rw [hk0] at this; cases this
+      have h1 : s.filter (fun e => !inRange ⟨start, limit⟩ e.1) = s := by
+        apply List.filter_eq_self.mpr
+        intro e he; rw [hnone e he]; rfl
+      have h2 : cnt s ⟨start, limit⟩ = 0 := by
+        unfold cnt
+        rw [List.length_eq_zero_iff]
+        apply List.filter_eq_nil_iff.mpr
+        intro e he; rw [hnone e he]; simp
+      rw [h1, h2]
+    · simp only [h0, if_false]
+      have hlt : cnt (batchRound s start limit n).1 ⟨(batchRound s start limit n).2.1, limit⟩ < fuel := by omega
+      rw [ih _ _ (round_distinct s start limit n hd) hlt]
+      rw [round_outside s start limit n hd, hcount]
+
+
+theorem cnt_le_length (s : Store) (r : Range) : cnt s r ≤ s.length := List.length_filter_le _ _
+
+/-- the fuel the driver gives (`length + 1`) is enough -/
+theorem batch_remove_exact_driver (s : Store) (start limit : Option Bytes) (n : Nat) (hn : 0 < n) (hd : Distinct s) :
+    batchRemove (s.length + 1) s start limit n =
+      (s.filter (fun e => !inRange ⟨start, limit⟩ e.1), cnt s ⟨start, limit⟩) :=
+  batch_remove_exact limit n hn _ s start hd (Nat.lt_succ_of_le (cnt_le_length s _))
+
+/-- ✦ `batch_remove_exact` read key by key: a key in the range is gone, every other key keeps its value -/
+theorem batch_remove_lookup (s : Store) (start limit : Option Bytes) (n : Nat) (hn : 0 < n) (hd : Distinct s) (k : Bytes) :
+    lookup k (batchRemove (s.length + 1) s start limit n).1 =
+      if inRange ⟨start, limit⟩ k then none else lookup k s := by
+  rw [batch_remove_exact_driver s start limit n hn hd]
+  simp only
+  rw [lookup_filter_key (fun k => !inRange ⟨start, limit⟩ k) k s]
+  cases inRange ⟨start, limit⟩ k <;> simp
+
+/-- a batch size of zero removes nothing (the first key already "does not fit") -/
+theorem batch_remove_zero (fuel : Nat) (s : Store) (start limit : Option Bytes) :
+    batchRemove fuel s start limit 0 = (s, 0) := by
+  cases fuel with
+  | zero => rfl
+  | succ f => simp [batchRemove, batchRound]
+
+/-- the stores the model reaches are maps: every operation keeps the keys distinct -/
+theorem distinct_filter (s : Store) (p : Bytes × Bytes → Bool) (hd : Distinct s) : Distinct (s.filter p) :=
+  List.Pairwise.filter _ hd
+
+theorem distinct_delete (s : Store) (k : Bytes) (hd : Distinct s) : Distinct (delete s k) :=
+  distinct_filter s _ hd
+
+theorem distinct_put (s : Store) (k v : Bytes) (hd : Distinct s) : Distinct (put s k v) := by
+  unfold put Distinct
+  rw [List.pairwise_append]
+  refine ⟨List.Pairwise.filter _ hd, List.pairwise_singleton _ _, ?_⟩
+  intro a ha b hb
+  rw [List.mem_singleton] at hb
+  subst hb
+  simpa using (List.mem_filter.mp ha).2
+
+theorem distinct_batchRemove (s : Store) (start limit : Option Bytes) (n : Nat) (hn : 0 < n) (hd : Distinct s) :
+    Distinct (batchRemove (s.length + 1) s start limit n).1 := by
+  rw [batch_remove_exact_driver s start limit n hn hd]
+  exact distinct_filter s _ hd
+
+/-- a three-round removal: five keys in the range, batch size two -/
+example : batchRemove 7 [([1], [0]), ([5], [0]), ([2], [0]), ([9], [0]), ([3], [0]), ([4], [0]), ([6], [0])]
+    (some [2]) (some [7]) 2 = ([([1], [0]), ([9], [0])], 5) := by decide
+
+
 /-- ✦ facts of the current source: `Remove` and `Iter` refuse a closed prefix storage; pins. -/
 theorem facts_ok :
     Gen.C25.extractErrors = [] ∧ Gen.C25.removeRefusesClosed = true ∧ Gen.C25.iterRefusesClosed = true ∧
